@@ -281,6 +281,89 @@ class RaceRun:
         print((r["f_bad"][0]["race_report"] if r["f_bad"] else "no race report this time (races are schedule dependent)"), file=sys.stderr if quiet else sys.stdout)
         return {"f": 0 if r["f_bad"] else None}
 
+class OverrideMeta:
+    """C08 metamorphic check on the REAL code: 'clearing an override resumes the underlying state'.  For every generated
+    circuit history containing an episode  setcfg fo=1 | dis=1, calls…, setcfg fo=0 | dis=0  (calls under ForceOpen are
+    all refused, calls on a Disabled circuit pass straight through), the history is re-run with the episode replaced
+    by the passage of the same clock readings; every later op must answer identically."""
+    kind = "metamorphic"
+    name = "override-meta"
+    def __init__(self, quick, thorough):
+        self.quick, self.thorough = quick, thorough
+    def _variants(self, cases_p, real_p):
+        cl, rl = read_lines(cases_p), read_lines(real_p)
+        out = []
+        for header, ops, (real,) in split_cases(cl, rl):
+            for i, op in enumerate(ops):
+                if op not in ("setcfg fo=1", "setcfg dis=1"): continue
+                flag = op.split(" ")[1].split("=")[0]
+                j = i + 1
+                while j < len(ops) and ops[j].startswith("exec ") and " mid=" not in ops[j]: j += 1
+                if j == i + 1 or j >= len(ops) - 1 or ops[j] != "setcfg %s=0" % flag: break
+                body = list(range(i + 1, j))
+                ok = True; ticks = []
+                for k in body:
+                    rk = dict(t.split("=", 1) for t in real[k].split(" ") if "=" in t)
+                    if flag == "fo" and rk.get("run") != "0": ok = False
+                    if flag == "dis" and (" radv=0 " not in ops[k] + " " or "panic" in rk.get("res", "")): ok = False
+                    ticks.append(0 if rk.get("rd", "-") == "-" else len(rk["rd"].split(",")))
+                if not ok: break
+                variant = ops[:i] + ["tick 0"] + ["tick %d" % t for t in ticks] + ["tick 0"] + ops[j + 1:]
+                out.append({"header": header, "ops": ops, "from": i, "to": j, "variant": variant, "real": real, "flag": flag})
+                break
+        return out
+    def _run_variants(self, seqdiff, wd, vs):
+        vp = os.path.join(wd, "variants.cases")
+        with open(vp, "w") as f:
+            for v in vs:
+                f.write("case %s\n" % v["header"])
+                for o in v["variant"]: f.write(o + "\n")
+                f.write("end\n")
+        rc, out = sh([seqdiff, "-suite", "circuit", "-replay", vp, "-out", os.path.join(wd, "v")], env=GOENV, timeout=3600)
+        if rc != 0: raise HarnessCrash([seqdiff], out)
+        return [r for _, _, (r,) in split_cases(read_lines(os.path.join(wd, "v", "circuit.cases")), read_lines(os.path.join(wd, "v", "circuit.real")))]
+    def run(self, ctx):
+        seqdiff = go_build("seqdiff")
+        wd = os.path.join(ctx.workdir, self.name)
+        n = (self.quick if ctx.tier == "quick" else self.thorough) * ctx.scale
+        res = {"name": self.name, "kind": self.kind, "evaluations": 0, "distinct_nontrivial": 0, "traces_validated": 0, "samples": [], "stats": {}, "k_bad": [], "f_bad": []}
+        rc, out = sh([seqdiff, "-suite", "circuit", "-seed", str(ctx.seed + 202), "-cases", str(n), "-out", wd], env=GOENV, timeout=3600)
+        if rc != 0: raise HarnessCrash([seqdiff], out)
+        vs = self._variants(os.path.join(wd, "circuit.cases"), os.path.join(wd, "circuit.real"))
+        vreal = self._run_variants(seqdiff, wd, vs) if vs else []
+        for v, vr in zip(vs, vreal):
+            res["evaluations"] += 1
+            j = v["to"]
+            diff = next((k for k in range(j + 1, len(v["ops"])) if v["real"][k] != vr[k]), None)
+            if diff is None:
+                res["traces_validated"] += 1
+                if len(res["samples"]) < 2:
+                    res["samples"].append({"case": v["header"], "episode": v["ops"][v["from"]:j + 1], "later_ops_compared": len(v["ops"]) - j - 1})
+                continue
+            if len(res["f_bad"]) < 2:
+                res["f_bad"].append({"component": self.name, "kind": "spec-violation", "seed": ctx.seed, "case": v["header"], "ops": v["ops"][:diff + 1], "first_bad_op": diff,
+                                     "what": "after an override episode was cleared a later call answers differently than if the episode had not happened (only its clock readings passing)",
+                                     "with_override_episode": v["real"][diff], "with_time_passing_instead": vr[diff], "episode": [v["from"], j], "variant": v["variant"][:diff + 1], "signature": None})
+        res["distinct_nontrivial"] = len(vs)
+        res["stats"] = {"histories_with_an_override_episode": len(vs), "by_flag": {f: sum(1 for v in vs if v["flag"] == f) for f in ("fo", "dis")}}
+        return res
+    def replay(self, item, ctx, quiet=False):
+        import sys
+        seqdiff = go_build("seqdiff")
+        wd = os.path.join(ctx.workdir, "replay-ometa")
+        os.makedirs(wd, exist_ok=True)
+        outs = []
+        for name, o in (("orig", item["ops"]), ("variant", item["variant"])):
+            p = os.path.join(wd, name + ".cases")
+            with open(p, "w") as f:
+                f.write("case %s\n" % item["case"]); [f.write(x + "\n") for x in o]; f.write("end\n")
+            sh([seqdiff, "-suite", "circuit", "-replay", p, "-out", os.path.join(wd, name)], env=GOENV)
+            outs.append(read_lines(os.path.join(wd, name, "circuit.real"))[1:-1])
+        d = item["first_bad_op"]
+        same = d < len(outs[0]) and d < len(outs[1]) and outs[0][d] == outs[1][d]
+        print("op %d with the override episode : %s\nop %d with time passing instead  : %s" % (d, outs[0][d] if d < len(outs[0]) else "?", d, outs[1][d] if d < len(outs[1]) else "?"), file=sys.stderr if quiet else sys.stdout)
+        return {"f": None if same else d}
+
 class PanicMeta:
     """C10 metamorphic check on the REAL code: 'later calls behave as if the panicking call had not happened'.
     For every generated circuit history containing a run function that panicked, the history is re-run with that
